@@ -8,7 +8,8 @@ from pbt.runner import Violation, hyp_search
 
 LEVEL = 'fault_enumeration'
 SHARDS = {'quick': 8, 'thorough': 16}
-RULE = ('Hypothesis generates sequential programs (instance and class-level operations, handlers, sleeps of 0-3 ms); the '
+RULE = ('Hypothesis generates sequential programs (instance and class-level operations, handlers, sleeps of 0-3 ms, recording '
+        'switched off / on again in the middle of the operation); the '
         'harness enumerates every termination mode at every step - return, ordinary exception, interrupt-style '
         'BaseException, raised by the operation between steps or inside an intercepted input/output body, incl. after '
         'outputs were captured - crossed with metadata extractors that succeed, raise or return junk (None, int, list), '
@@ -52,6 +53,7 @@ def check_case(ctx, case):
     eff = FR.model_effects(prog)
     what = 'faults=%r' % (case['faults'],)
     fr = FR.FaultRun(prog, flags, enabled=True, cassette=case.get('cassette', 'memory'))
+    fr.rec.enable_recording()
     try:
         saves = [e for e in fr.spy_log if e[0] == 'save']
         if len(saves) != 1:
@@ -166,6 +168,11 @@ def bases(draw):
     # sprinkle short sleeps
     for _ in range(draw(st.integers(0, 2))):
         prog['steps'].insert(draw(st.integers(0, len(prog['steps']))), {'t': 'sleep', 'ms': draw(st.integers(1, 3))})
+    # recording switched off (and maybe on again) in the middle of the operation
+    if draw(st.sampled_from([False, False, True])):
+        prog['steps'].insert(draw(st.integers(0, len(prog['steps']))), {'t': 'toggle', 'on': False})
+        if draw(st.booleans()):
+            prog['steps'].append({'t': 'toggle', 'on': True})
     PS.assign_sids(prog)
     return {'prog': prog, 'pair_seed': draw(st.integers(0, 10 ** 6)),
             'cassette': draw(st.sampled_from(['memory', 'memory', 'file', 's3'])),
